@@ -1,6 +1,7 @@
 package colsim
 
 import (
+	"bytes"
 	"fmt"
 	"os"
 	"runtime"
@@ -10,6 +11,8 @@ import (
 
 	"github.com/kelindar/column"
 	"github.com/kelindar/column/commit"
+	"github.com/kelindar/iostream"
+	"github.com/klauspost/compress/s2"
 )
 
 // guarded runs fn with panic capture and a wall-clock watchdog (a hang in library code on
@@ -96,6 +99,57 @@ func truncationPoints(n int, boundaries []int, everyByteBelow, samples int, rng 
 	return out
 }
 
+// parseLastCommits reads the per-block commit ids out of the state part of a snapshot
+// stream (version, column count, then per block: last commit id and one buffer per column).
+func parseLastCommits(state []byte) (out map[uint32]uint64, err error) {
+	defer func() {
+		if r := recover(); r != nil {
+			err = fmt.Errorf("panic: %v", r)
+		}
+	}()
+	out = map[uint32]uint64{}
+	r := iostream.NewReader(s2.NewReader(bytes.NewReader(state)))
+	if v, err := r.ReadUvarint(); err != nil || v != 1 {
+		return nil, fmt.Errorf("version %d: %v", v, err)
+	}
+	cols, err := r.ReadUvarint()
+	if err != nil {
+		return nil, err
+	}
+	err = r.ReadRange(func(i int, r *iostream.Reader) error {
+		id, err := r.ReadUvarint()
+		if err != nil {
+			return err
+		}
+		out[uint32(i)] = id
+		for k := uint64(0); k < cols; k++ {
+			if _, err := commit.NewBuffer(0).ReadFrom(r); err != nil {
+				return err
+			}
+		}
+		return nil
+	})
+	return out, err
+}
+
+func describeTail(tail []commit.Commit, last map[uint32]uint64) string {
+	s := " (logged:"
+	for i, c := range tail {
+		if i >= 8 {
+			s += " ..."
+			break
+		}
+		id, ok := last[uint32(c.Chunk)]
+		s += fmt.Sprintf(" id=%d block=%d", c.ID, c.Chunk)
+		if !ok {
+			s += "[block not in state part]"
+		} else if c.ID <= id {
+			s += "[contained]"
+		}
+	}
+	return s + ")"
+}
+
 type decodedCommit struct {
 	ID    uint64
 	Chunk uint32
@@ -145,9 +199,55 @@ func (w *World) truncationChecks(everyByteBelow, samples int) {
 			}
 			w.stats.probe("snapshot-with-log-tail")
 		}
-		// D_j = restore of the complete state part plus the first j logged commits
+		// D_j = the complete block states plus the first j logged commits, each whole and in
+		// order. The reference is built without the reconcile step of Restore: the state part is
+		// restored on its own (no log follows it), the per-block commit ids it records are parsed
+		// by the harness, and the logged commits are replayed one by one, skipping exactly those
+		// a block's state already contains (id not above the block's recorded id; a block the
+		// state part does not hold contains nothing).
+		last, perr := parseLastCommits(data[:stateLen])
+		if perr != nil {
+			w.fail(violation("truncated-snapshot/state-part-unreadable", "the state part of complete snapshot #%d does not parse: %v", si, perr))
+			return
+		}
 		legal := map[string]int{}
-		for j := 0; j <= len(tail); j++ {
+		ref := w.newCollection(nil)
+		if err := ref.Restore(NewSimReader(data[:stateLen], nil, 0)); err != nil {
+			w.fail(violation("truncated-snapshot/reference-restore", "restoring the complete state part of snapshot #%d failed: %v", si, err))
+			return
+		}
+		refKeys := []string{rowsKey(w.model.Cols, readAllRows(ref, w.model.Cols))}
+		legal[refKeys[0]] = 0
+		if stateLen < len(data) {
+			j := 0
+			err := commit.Open(NewSimReader(data[stateLen:], nil, 0)).Range(func(c commit.Commit) error {
+				j++
+				if c.ID > last[uint32(c.Chunk)] {
+					if _, held := last[uint32(c.Chunk)]; !held {
+						w.stats.probe("logged-commit-to-block-absent-from-state-part")
+					}
+					if err := ref.Replay(c); err != nil {
+						return err
+					}
+				} else {
+					w.stats.probe("logged-commit-already-in-block-state")
+				}
+				k := rowsKey(w.model.Cols, readAllRows(ref, w.model.Cols))
+				refKeys = append(refKeys, k)
+				if _, seen := legal[k]; !seen {
+					legal[k] = j
+				}
+				return nil
+			})
+			if err != nil {
+				w.fail(violation("truncated-snapshot/reference-replay", "replaying the log tail of snapshot #%d on the restored state part failed: %v", si, err))
+				return
+			}
+		}
+		ref.Close()
+		// complete streams: the state part followed by a log of the first j commits must restore
+		// to one of D_0..D_j (it cannot hold more than it was given)
+		for j := 1; j <= len(tail); j++ {
 			lf := &SimRW{SimFile: NewSimFile()}
 			lg := commit.Open(lf)
 			for _, c := range tail[:j] {
@@ -157,14 +257,16 @@ func (w *World) truncationChecks(everyByteBelow, samples int) {
 			}
 			stream := append(append([]byte{}, data[:stateLen]...), lf.Data...)
 			fresh := w.newCollection(nil)
-			if j == 0 {
-				stream = data[:stateLen]
-			}
+			w.stats.Checks++
 			if err := fresh.Restore(NewSimReader(stream, nil, 0)); err != nil {
-				w.fail(violation("truncated-snapshot/reference-restore", "restoring the complete state part of snapshot #%d plus %d logged commits failed: %v", si, j, err))
+				w.fail(violation("truncated-snapshot/complete-stream-rejected", "restoring the complete state part of snapshot #%d plus a log of its first %d commits failed: %v", si, j, err))
 				return
 			}
-			legal[rowsKey(w.model.Cols, readAllRows(fresh, w.model.Cols))] = j
+			k := rowsKey(w.model.Cols, readAllRows(fresh, w.model.Cols))
+			if at, ok := legal[k]; !ok || at > j {
+				w.fail(violation("truncated-snapshot/log-tail-not-a-prefix", "snapshot #%d: the state part followed by its first %d logged commits (of %d) restores to a state that equals the block states plus no prefix of those commits applied whole and in order%s", si, j, len(tail), describeTail(tail[:j], last)))
+				return
+			}
 			fresh.Close()
 			runtime.Gosched()
 		}
